@@ -9,6 +9,7 @@ def squawk_of(id13):
 
 class C06:
     id = "C06"
+    shown_columns = ('SQWK',)
     corr_fields = ['squawk']
     lean_modules = ["SqModel.Props.C06", "SqModel.Proofs.BridgeBits", "SqModel.Proofs.Bridge", "SqModel.Proofs.BridgePlane"]
     extractors = ["ma_code", "trans"]
